@@ -287,11 +287,14 @@ def discovered_names():
     # ... and after the library has grown (caches that only appear beyond some size) and been read again
     big = mod.TagLibrary()
     for i in range(300):
-        big.add_tag(f'G{i}')
-        if i in (10, 40, 70, 299):
-            big.itemize()
-            big.get_tag_name(i)
-            len(big)
+        try:                      # (only names are collected here: what goes wrong is judged by the legs, not by this helper)
+            big.add_tag(f'G{i}')
+            if i in (10, 40, 70, 299):
+                big.itemize()
+                big.get_tag_name(i)
+                len(big)
+        except Exception:         # noqa
+            pass
     names |= {n for n in set(vars(big)) | set(dir(big)) if not (n.startswith('G') and n[1:].isdigit())}
     with open(TAGS_PATH) as f:
         idents = set(re.findall(r'[A-Za-z_][A-Za-z0-9_]*', f.read()))
